@@ -82,6 +82,9 @@ class ScriptEngine(EngineBase):
         write_frames(outfile, [(x, -v, e)])
 
     def modify_velocities(self, system, vel_settings):
+        if not hasattr(self, "vel_requests"):
+            self.vel_requests = []
+        self.vel_requests.append(dict(vel_settings))  # what the move asked for (zero_momentum, ...)
         pos = self.dump_frame(system)
         x, v, e = read_frames(pos)[0]
         kin_old = 0.5 * v * v
